@@ -137,6 +137,19 @@ class _Str(T):
         return SStr(seq=ctx.fresh_seq(name))
 
 
+class Secret(T):
+    """wraps a type: the fresh symbols are labelled secret (name prefix SECRET!), see pyvc/secrecy.py"""
+
+    def __init__(self, inner):
+        self.inner = inner
+
+    def fresh(self, ctx, name):
+        return self.inner.fresh(ctx, 'SECRET!' + name)
+
+    def restrict(self, ctx, value):
+        return self.inner.restrict(ctx, value)
+
+
 class ListOf(T):
     """list of symbolic length (lazy prefix representation); `cls` may be a list subclass."""
 
@@ -221,6 +234,7 @@ class Contract:
         self.raises_iff = d.get('raises_iff', {})    # exc class -> condition fn (raised exactly when)
         self.pins = {k: _fn(v) for k, v in d.get('pins', {}).items()}
         self.init = _fn(d.get('init'))               # symbolic only: establishes derived fields of record parameters (representation invariant)
+        self.init_after_prepare = d.get('init_after_prepare', False)   # native replay: run init on the real objects (history prefix)
         self.call = _fn(d.get('call'))               # params -> dict of keyword arguments of the target
         self.build = _fn(d.get('build'))
         self.perturb = _fn(d.get('perturb'))         # native: (params..., rng) in-place change of the receiver between an earlier call and the checked one
